@@ -357,3 +357,63 @@ def c07_nested(e):
     wi = len(inner_lines[0])
     alone = cat.render_lines(c, _nest_inner(fixed), wi)
     return inner_lines == [l.rstrip() for l in alone]
+
+
+# --- a render (or measure) pass that raised leaves nothing behind (P) ------------------------------------------------------------
+from rich.text import Text as _Text7  # noqa: E402
+
+
+class _Boom7(Exception):
+    pass
+
+
+class _RaisesAt:
+    """A cell renderable that raises on its n-th render and is an ordinary text otherwise."""
+
+    def __init__(self, at):
+        self.at, self.count = at, 0
+
+    def __rich_console__(self, console, options):
+        self.count += 1
+        if self.count == self.at:
+            raise _Boom7()
+        yield _Text7("cell")
+
+
+@symx("C07-render-after-failed-render", timeout=600, kind="P", functions=F_T7,
+      bounds="a 2-column ASCII-box table with 1..2 rows, one cell of which raises on its n-th render (n in 1..3: during the first "
+             "render, a later render, or never), rendered (and optionally measured) 1..2 times with the exception caught, then 0..2 rows "
+             "are added and the table is rendered again at width 12..30: the lines are those of a freshly built table with the same "
+             "rows - every row present, in order",
+      outside="other fault points inside Table; more rows")
+def c07_after_failed_render(e):
+    from rich.measure import Measurement
+    at = int(e.mk("raise_at", 1, 3))
+    rows0 = int(e.mk("rows_before", 1, 2))
+    added = int(e.mk("rows_added", 0, 2))
+    passes = int(e.mk("passes", 1, 2))
+    measure = bool(e.mkbool("measure_too"))
+    w = int(e.mk("width", 12, 30))
+    c = cat.console()
+
+    def build(n_rows, cell):
+        t = Table(box=box_mod.ASCII)
+        t.add_column("k")
+        t.add_column("v")
+        for r in range(n_rows):
+            t.add_row("key%d" % r, cell if r == 0 else "val%d" % r)
+        return t
+    t = build(rows0, _RaisesAt(at))
+    for _ in range(passes):
+        try:
+            if measure:
+                Measurement.get(c, t, w)
+            cat.render_lines(c, t, w)
+        except _Boom7:
+            pass
+    for r in range(rows0, rows0 + added):
+        t.add_row("key%d" % r, "val%d" % r)
+    t.columns[1]._cells[0] = _Text7("cell")
+    got = cat.render_lines(c, t, w)
+    want = cat.render_lines(c, build(rows0 + added, _Text7("cell")), w)
+    return got == want
